@@ -75,8 +75,33 @@ fn gen(seed: u64) -> Plan16 {
                 i.n = i.n.min(4);
                 i
             };
+            let mut inst = inst;
+            let mut what = *rng.pick(&["over", "over", "short", "long", "empty", "max", "long_ctx", "norm_wrap"]);
+            if what == "norm_wrap" {
+                // L1-bound sum with a bound so large that an out-of-range L1 norm wraps around the
+                // field modulus: every element is within the bound, the norm is p + small
+                let max = *rng.pick(&[1u128 << 127, model::P128 - 1, (model::P128 - 1) / 2 + 1]);
+                let len = 2 + rng.below(3) as u32;
+                let bits = crate::model::bits_of(max) as u32;
+                inst = Inst { class: "l1".into(), n: 2 + rng.below(2) as u8, proofs: 1, max: N(max), len, chunk: 1 + rng.below((bits * (len + 1)) as u64) as u32, weight: 1, mt: false, named: true };
+            }
             let mut meas = model::gen_meas(&inst, rng);
-            let what = *rng.pick(&["over", "over", "short", "long", "empty", "max", "long_ctx"]);
+            if what == "norm_wrap" {
+                let max = inst.max.0;
+                let small = rng.below(1000) as u128;
+                meas = vec![N(0); inst.len as usize];
+                meas[0] = N(max);
+                let rest = model::P128 - max + small;
+                if rest <= max {
+                    meas[1] = N(rest);
+                } else {
+                    what = "over";
+                    meas[1] = N(max);
+                    if inst.len > 2 {
+                        meas[2] = N((model::P128.saturating_sub(max).saturating_sub(max) + small).min(max));
+                    }
+                }
+            }
             let p = model::modulus(&inst);
             match what {
                 "over" => {
@@ -105,7 +130,7 @@ fn gen(seed: u64) -> Plan16 {
                     meas.pop();
                 }
                 "long" => meas.push(N(0)),
-                "long_ctx" => {}
+                "long_ctx" | "norm_wrap" => {}
                 "empty" => meas.clear(),
                 _ => {
                     for x in meas.iter_mut() {
@@ -129,7 +154,18 @@ fn gen(seed: u64) -> Plan16 {
                 inst.n = 2 + rng.below(3) as u8;
             }
             let what = *rng.pick(&["agg_id", "wrong_role", "share_count", "cross_instance", "cross_instance"]);
-            let other = if what == "cross_instance" {
+            let other = if what == "cross_instance" && inst.is_prio3() && rng.chance(1, 3) {
+                // another CLASS whose share objects have the same Rust type (same field and seed size)
+                let fam: &[&str] = if matches!(inst.class.as_str(), "count" | "sum" | "sumvec64") { &["count", "sum", "sumvec64"] } else { &["avg", "sumvec", "hist", "multihot", "l1"] };
+                let mut o = crate::inst::gen_prio3_inst(rng, true, false);
+                let mut g = 0;
+                while (!fam.contains(&o.class.as_str()) || o.class == inst.class) && g < 200 {
+                    o = crate::inst::gen_prio3_inst(rng, true, false);
+                    g += 1;
+                }
+                o.n = inst.n;
+                Some(o)
+            } else if what == "cross_instance" {
                 // same Rust type, other parameters
                 let mut o = inst.clone();
                 match rng.below(5) {
@@ -210,6 +246,27 @@ impl<'a> Visitor for ShardVis<'a> {
             Err(crate::inst::ShardErr::Refused(e)) => Err(e),
             Err(crate::inst::ShardErr::Panic(v)) => Err(v.detail),
         }
+    }
+}
+
+/// Decode a report's shares with the instance that produced them and hand them out type-erased.
+struct ObjVis<'a> {
+    pb: &'a [u8],
+    ib: &'a [Vec<u8>],
+}
+impl<'a> Visitor for ObjVis<'a> {
+    type Out = Result<(Box<dyn std::any::Any>, Vec<Box<dyn std::any::Any>>), String>;
+    fn visit<V, A, const VK: usize>(self, vdaf: &V, _ad: &A) -> Self::Out
+    where
+        V: SimVdaf<VK>,
+        A: Adapter<V>,
+    {
+        let public = V::PublicShare::get_decoded_with_param(vdaf, self.pb).map_err(|e| e.to_string())?;
+        let mut v: Vec<Box<dyn std::any::Any>> = Vec::new();
+        for (j, b) in self.ib.iter().enumerate() {
+            v.push(Box::new(V::InputShare::get_decoded_with_param(&(vdaf, j), b).map_err(|e| e.to_string())?));
+        }
+        Ok((Box::new(public), v))
     }
 }
 
@@ -343,6 +400,24 @@ impl<'a, 'c, 'cc> Visitor for AggVis<'a, 'c, 'cc> {
                 match guard("PublicShare::decode(foreign instance bytes)", || V::PublicShare::get_decoded_with_param(vdaf, &opb)) {
                     Err(v) => ctx.fail(v),
                     Ok(_) => {}
+                }
+                // ... objects of ANOTHER CLASS with the same share type (e.g. an Average helper share
+                // given to a Histogram instance), obtained through `Any`
+                if o.class != inst.class {
+                    if let Ok(Ok(objs)) = dispatch(o, ObjVis { pb: &opb, ib: &oib }) {
+                        for (j, obj) in objs.1.iter().enumerate().take(n) {
+                            let Some(osh) = obj.downcast_ref::<V::InputShare>() else { continue };
+                            for pubref in [Some(&public), objs.0.downcast_ref::<V::PublicShare>()].into_iter().flatten() {
+                                match guard("verify_init(share object of another class with the same share type)", || vdaf.verify_init(&key, &c.0, j, &ap, &n16, pubref, osh)) {
+                                    Err(v) => {
+                                        ctx.fail(v);
+                                        return Ok(());
+                                    }
+                                    Ok(_) => ctx.counters.inc("c16.cross_class_objects_processed"),
+                                }
+                            }
+                        }
+                    }
                 }
                 // ... and hand foreign OBJECTS to our instance (API path): a second instance of the
                 // same Rust type decodes its own shares; our instance must answer with an error
